@@ -984,11 +984,9 @@ func toBool(value interface{}) bool {
 	switch v := value.(type) {
 	case bool:
 		return v
-	case int, int8, int16, int32, int64:
+	case int:
 		return v != 0
-	case uint, uint8, uint16, uint32, uint64:
-		return v != 0
-	case float32, float64:
+	case float64:
 		return v != 0
 	case string:
 		return v != ""
@@ -996,6 +994,18 @@ func toBool(value interface{}) bool {
 		return len(v) > 0
 	case map[string]interface{}:
 		return len(v) > 0
+	}
+
+	// The other number types by kind (a case listing several types would compare the
+	// interface value with the int constant 0)
+	rv := reflect.ValueOf(value)
+	switch rv.Kind() {
+	case reflect.Int, reflect.Int8, reflect.Int16, reflect.Int32, reflect.Int64:
+		return rv.Int() != 0
+	case reflect.Uint, reflect.Uint8, reflect.Uint16, reflect.Uint32, reflect.Uint64:
+		return rv.Uint() != 0
+	case reflect.Float32, reflect.Float64:
+		return rv.Float() != 0
 	}
 
 	// Default to true for non-nil values
